@@ -160,6 +160,9 @@ type SrvH struct {
 }
 
 type SrvCfg struct {
+	// NoCheck: server.DisableRIBCheckFn() — the RIB is a plain keyed store; the model does not
+	// describe that configuration, only the model-free monitors judge it
+	NoCheck  bool
 	Fwd      bool
 	Hook     bool
 	Resolved bool
@@ -187,6 +190,9 @@ func NewSrvH(cfg *SrvCfg) (*SrvH, error) {
 	opts := []server.ServerOpt{}
 	if !cfg.Fwd {
 		opts = append(opts, server.WithNoRIBForwardReferences())
+	}
+	if cfg.NoCheck {
+		opts = append(opts, server.DisableRIBCheckFn())
 	}
 	if cfg.Hook {
 		opts = append(opts, server.WithPostChangeRIBHook(h.hooks.fn))
